@@ -402,7 +402,10 @@ func (e *Env) field(v Val, name string) (Val, error) {
 		if _, isPtr := T.Underlying().(*types.Pointer); isPtr {
 			base := cur.T
 			cur = g.loadField(e.heap, derefType(T), cur.T, idx)
-			if cur.S != "" && !strings.Contains(cur.T, "|q!") && !strings.Contains(cur.T, "r!this") {
+			// these facts are assumptions about what an UNKNOWN heap holds (entry state, havocked state): they may only be stated
+			// for a plain read of a named heap version. A value the program itself built and stored (make([]T, n) put into a field)
+			// must not be declared well-formed here - that would assume n >= 0 behind the back of the allocation check
+			if cur.S != "" && !strings.Contains(cur.T, "|q!") && !strings.Contains(cur.T, "r!this") && isRawHeapLoad(cur.T) {
 				g.S.assert(g.typeAssume(cur))
 				// heap well-formedness: what a field of an allocated object refers to is allocated (or nil)
 				al := g.hget(e.heap, g.allocComp())
@@ -925,4 +928,15 @@ func (g *Gen) resolveType(s string) (types.Type, error) {
 		t = types.NewPointer(t)
 	}
 	return t, nil
+}
+
+// isRawHeapLoad reports whether t is (select |H| x) with H a named heap version (not a store/ite term).
+func isRawHeapLoad(t string) bool {
+	const p = "(select |"
+	if !strings.HasPrefix(t, p) {
+		return false
+	}
+	rest := t[len(p):]
+	i := strings.Index(rest, "|")
+	return i > 0 && i+1 < len(rest) && rest[i+1] == ' '
 }
